@@ -146,16 +146,20 @@ theorem kbdRounds_ok {qs : List Nat} {fl : List Follow} (h : (kbdRounds qs fl).1
   induction qs generalizing fl with
   | nil => trivial
   | cons q qs ih =>
-    cases fl with
-    | nil => simp [kbdRounds] at h
-    | cons f rest =>
-      unfold kbdRounds at h
-      by_cases ha : answers q f = true
-      · simp [ha] at h
-        refine ⟨?_, ih h⟩
-        cases f <;> simp [answers] at ha
-        rw [ha]
-      · simp [ha] at h
+    unfold kbdRounds at h
+    by_cases h99 : (q == 99) = true
+    · simp [h99] at h
+    · simp only [h99, Bool.false_eq_true, if_false] at h
+      cases fl with
+      | nil => simp at h
+      | cons f rest =>
+        simp only [] at h
+        by_cases ha : answers q f = true
+        · simp [ha] at h
+          refine ⟨?_, ih h⟩
+          cases f <;> simp [answers] at ha
+          rw [ha]
+        · simp [ha] at h
 
 theorem gssExchange_mic {ss : List GssStep} {fl : List Follow} (h : (gssExchange ss fl).1 = .mic) : GssDone ss fl := by
   induction ss generalizing fl with
@@ -321,13 +325,16 @@ theorem kbdRounds_evs (st : St) (r : Req) (qs : List Nat) (fl : List Follow) :
   induction qs generalizing fl with
   | nil => simp [kbdRounds]
   | cons q qs ih =>
-    cases fl with
-    | nil => simp [kbdRounds, auxEv]
-    | cons f rest =>
-      unfold kbdRounds
-      split
-      · simp only [List.all_cons, auxEv, Bool.true_and]; exact ih rest
-      · simp [auxEv]
+    unfold kbdRounds
+    split
+    · rfl
+    · cases fl with
+      | nil => simp [auxEv]
+      | cons f rest =>
+        simp only []
+        split
+        · simp only [List.all_cons, auxEv, Bool.true_and]; exact ih rest
+        · simp [auxEv]
 
 theorem gssExchange_evs (st : St) (r : Req) (ss : List GssStep) (fl : List Follow) :
     (gssExchange ss fl).2.1.all (auxEv st r) = true := by
